@@ -409,6 +409,10 @@ func (u *Unit) writeElem(st *State, r *Region, idx *Term, path string, t types.T
 				u.setComp(st, r, path+"#nil", storeMem{u.compMem(st, r, path+"#nil", SortBool), idx, True})
 				return true
 			}
+			if !p.Obj.fresh {
+				u.unsupported("storing a pointer to a caller-owned object into a region")
+				return false
+			}
 			u.setComp(st, r, path+"#nil", storeMem{u.compMem(st, r, path+"#nil", SortBool), idx, False})
 			// the pointee is captured by value: sound as long as it is not mutated through another alias
 			// afterwards (checked: the object is marked captured and later stores to it are unsupported)
@@ -430,6 +434,10 @@ func (u *Unit) writeElem(st *State, r *Region, idx *Term, path string, t types.T
 			}
 			u.setComp(st, r, path+"#tag", storeMem{u.compMem(st, r, path+"#tag", SortInt), idx, IntK(int64(u.eng.typeID(iv.Typ)))})
 			return u.writeElem(st, r, idx, path+"@"+relType(iv.Typ), iv.Typ, iv.V)
+		case SymIface:
+			// an arbitrary interface value: only its dynamic type is carried over (the pointee stays arbitrary)
+			u.setComp(st, r, path+"#tag", storeMem{u.compMem(st, r, path+"#tag", SortInt), idx, iv.Tag})
+			return true
 		}
 	}
 	u.unsupported("writeElem of %s (%T)", t, v)
